@@ -14,7 +14,7 @@ LEVEL = "other"
 FUNCS = ["sum", "mean", "max", "min", "count", "var", "std", "prod", "median", "first", "last", "any", "all"]
 
 
-KINDS = ["coord1d", "coord1d", "external1d", "coord2d", "two"]
+KINDS = ["coord1d", "coord1d", "external1d", "coord2d", "two", "bins"]
 
 
 def make_obj(rng, ndim, chunked, dataset, kind="coord1d"):
@@ -157,6 +157,12 @@ def cases(run, rng, n, maxdim):
                 # fill also applies to all-NaN groups, so the data of these cases carry no NaN.
                 fkw["fill_value"] = np.nan
                 obj = obj.fillna(0.0)
+        bins = None
+        if kind == "bins":
+            # binning by edges: group dimension '<name>_bins', labels outside every bin dropped, empty bins NaN
+            bins = sorted(rng.sample([-0.5, 0.5, 1.5, 2.5, 3.5], k=rng.randint(2, 4)))
+            fkw = {"expected_groups": np.array(bins), "isbin": True, "fill_value": np.nan}
+            obj = obj.fillna(0.0)
         if func in ("any", "all"):
             obj = obj > 0 if not dataset else obj.map(lambda v: v > 0)
         skipna = rng.choice([None, True, False]) if func not in ("count", "first", "last", "any", "all") else None
@@ -177,7 +183,7 @@ def cases(run, rng, n, maxdim):
             dim = list(grouper_dims) + ([rng.choice(others)] if others else [])
             rng.shuffle(dim)
         desc = {"ndim": ndim, "dims": names, "groupers": [{"name": g[0], "dims": list(g[1]), "labels": g[2].tolist(), "external": g[3]} for g in groupers],
-                "func": func, "skipna": skipna, "dim": str(dim), "chunked": chunked, "dataset": dataset, "keep_attrs": keep_attrs, "kind": kind}
+                "func": func, "skipna": skipna, "dim": str(dim), "chunked": chunked, "dataset": dataset, "keep_attrs": keep_attrs, "kind": kind, "bins": bins}
         kw = {"skipna": skipna} if skipna is not None else {}
         if func in ("var", "std"):
             kw["ddof"] = rng.choice([0, 1])
@@ -187,7 +193,9 @@ def cases(run, rng, n, maxdim):
         try:
             with warnings.catch_warnings(), xr.set_options(use_flox=False):
                 warnings.simplefilter("ignore")
-                if len(groupers) == 1:
+                if bins is not None:
+                    gb = obj.groupby_bins(by_objs[0], bins)
+                elif len(groupers) == 1:
                     gb = obj.groupby(by_objs[0])
                 else:
                     gb = obj.groupby({g[0]: UniqueGrouper() for g in groupers})
@@ -234,6 +242,10 @@ def cases(run, rng, n, maxdim):
         probs = [x for x in probs if x not in known]
         if known:
             run.known(KF06, F.describe(KF06))
+        KF08 = "KF08-bins-dim-without-grouper-dim"
+        if F.active(KF08) and bins is not None and not any(d in grouper_dims for d in dim_tuple) and probs:
+            run.known(KF08, F.describe(KF08))
+            probs = []
         KF07 = "KF07-shortcut-several-groupers-1d-coords"
         if F.active(KF07) and len(grouper_dims) > 1 and not any(d in grouper_dims for d in dim_tuple):
             k7 = [(v, p) for v, p in probs if p.startswith("coord lab") or p.startswith("dims ")]
@@ -269,7 +281,13 @@ def restore_cases(run, rng, n):
         rng.shuffle(resdims)
         obj = xr.DataArray(np.zeros([2] * len(objdims)), dims=objdims)
         res = xr.Variable(resdims, np.zeros([2] * len(resdims)))
-        out = list(_restore_dim_order(res, obj, by, no_groupby_reorder=nr).dims)
+        if rng.random() < 0.3 and gname == "lab":   # binning: the group dimension is '<name>_bins'
+            resdims = [d if d != gname else "lab_bins" for d in resdims]
+            res = xr.Variable(resdims, np.zeros([2] * len(resdims)))
+            out = list(_restore_dim_order(res, obj, by, no_groupby_reorder=nr, group_name="lab_bins").dims)
+            gname = "lab_bins"
+        else:
+            out = list(_restore_dim_order(res, obj, by, no_groupby_reorder=nr).dims)
         run.count(f"rdo|{objdims}|{gname}|{gdims}|{nr}|{resdims}", len(resdims) > 1 and out != resdims)
         sl = lambda l: C.list_lit([C.str_lit(x) for x in l])
         gd = f"(Some {C.str_lit(gdims[0])})" if len(gdims) == 1 else "None"
